@@ -37,14 +37,14 @@
 EXTENDS Num, Json, IOUtils
 
 Batch  == JsonDeserialize(IOEnv.BATCH_FILE)     \* [graphs |-> <<...>>, runs |-> <<...>>]
-Mode   == IOEnv.MODE                            \* "mc" | "judge"
+Mode   == IOEnv.MODE                            \* "mc" | "judge" | "trace"
 Graphs == Batch.graphs
 Runs   == Batch.runs
 
 INF == 1000000
 
-VARIABLES iid, cid, phase, heap, fifo, best, came, visited, tb, cur, todo, result, orc, verdict
-vars == <<iid, cid, phase, heap, fifo, best, came, visited, tb, cur, todo, result, orc, verdict>>
+VARIABLES iid, cid, phase, heap, fifo, best, came, visited, tb, cur, todo, result, orc, verdict, l
+vars == <<iid, cid, phase, heap, fifo, best, came, visited, tb, cur, todo, result, orc, verdict, l>>
 
 \* ------------------------------------------------------------------ (M) the graph
 Nodes(g)   == 1..g.N
@@ -146,7 +146,7 @@ Shape(g, o) ==
 
 \* ------------------------------------------------------------------ (R) the machines
 G    == Graphs[iid]
-Cfg  == G.cfgs[cid]
+Cfg  == IF Mode = "mc" THEN G.cfgs[cid] ELSE Runs[cid].cfg
 Alg  == Cfg.alg
 Tie  == Cfg.tie
 Rnd  == Cfg.rnd
@@ -180,7 +180,13 @@ Finish(ph, r) ==
   /\ phase' = ph /\ result' = r
   /\ heap' = {} /\ fifo' = <<>> /\ best' = EmptyMap(G) /\ came' = EmptyMap(G) /\ visited' = {}
   /\ tb' = 0 /\ cur' = None /\ todo' = <<>>
-  /\ UNCHANGED <<iid, cid, orc, verdict>>
+  /\ UNCHANGED <<iid, cid, orc, verdict, l>>
+
+\* mode "trace": the visit events logged from the real code (state whose actions were asked for, order in
+\* which its successors were asked for) resolve the nondeterminism of the machine; l = events consumed
+Visits == Runs[cid].visits
+VisitOK(s, ord) == Mode = "trace" => (l < Len(Visits) /\ Visits[l + 1][1] = s /\ Visits[l + 1][2] = ord)
+StepL == l' = IF Mode = "trace" THEN l + 1 ELSE l
 
 InitMC ==
   /\ iid \in 1..Len(Graphs)
@@ -189,7 +195,7 @@ InitMC ==
   /\ phase = "oracle"
   /\ heap = {} /\ fifo = <<>> /\ best = EmptyMap(Graphs[iid]) /\ tb = 0
   /\ came = EmptyMap(Graphs[iid]) /\ visited = {} /\ cur = None /\ todo = <<>>
-  /\ result = None /\ verdict = {}
+  /\ result = None /\ verdict = {} /\ l = 0
 
 \* plan_on up to the first push: rnd = random.Random(seed); dsp = from_mdp(mdp); push(start)
 Configure ==
@@ -204,7 +210,7 @@ Configure ==
           /\ fifo' = IF cf.alg = "bfs" THEN <<G.start>> ELSE <<>>
           /\ best' = IF cf.alg = "astar" THEN [EmptyMap(G) EXCEPT ![G.start] = n0] ELSE EmptyMap(G)
           /\ tb' = IF cf.alg = "astar" THEN t1 ELSE 0
-  /\ UNCHANGED <<iid, came, visited, cur, todo, result, orc, verdict>>
+  /\ UNCHANGED <<iid, came, visited, cur, todo, result, orc, verdict, l>>
 
 \* ---- A*
 APop ==
@@ -215,12 +221,13 @@ APop ==
          \* a worse node of an already visited state: skipped
          IF best[s] # None THEN Finish("error", ResultErr("assert: previously visited node should not be best node"))
          ELSE /\ heap' = heap \ {n}
-              /\ UNCHANGED <<iid, cid, phase, fifo, best, came, visited, tb, cur, todo, result, orc, verdict>>
+              /\ UNCHANGED <<iid, cid, phase, fifo, best, came, visited, tb, cur, todo, result, orc, verdict, l>>
        ELSE IF best[s] # n THEN Finish("error", ResultErr("assert: newly visited state should be stored as best node"))
        ELSE IF IsGoal(G, s) THEN
          IF n[1] # 2 * n[3] THEN Finish("error", ResultErr("assert: heuristic_cost == cost_from_start at the goal"))
          ELSE Finish("done", ResultPath(G, came, s, n[3], visited))
        ELSE \E ord \in Orders(G, s, Rnd) :
+              /\ VisitOK(s, ord) /\ StepL
               /\ heap' = heap \ {n}
               /\ best' = [best EXCEPT ![s] = None]
               /\ visited' = visited \cup {s}
@@ -239,7 +246,7 @@ APush ==
      IN IF ns \in visited \/ (best[ns] # None /\ best[ns][3] <= ng) THEN
           /\ todo' = rest
           /\ IF more THEN cur' = cur /\ phase' = "expand" ELSE cur' = None /\ phase' = "pop"
-          /\ UNCHANGED <<iid, cid, heap, fifo, best, came, visited, tb, result, orc, verdict>>
+          /\ UNCHANGED <<iid, cid, heap, fifo, best, came, visited, tb, result, orc, verdict, l>>
         ELSE LET ntb  == NextTb(tb, Tie)
                  node == <<F(H, ng, ns), ntb, ng, ns>>
              IN IF cur[1] > node[1] THEN Finish("error", ResultErr("assert: heuristic is non-monotonic"))
@@ -249,7 +256,7 @@ APush ==
                      /\ tb' = ntb
                      /\ todo' = rest
                      /\ IF more THEN cur' = cur /\ phase' = "expand" ELSE cur' = None /\ phase' = "pop"
-                     /\ UNCHANGED <<iid, cid, fifo, visited, result, orc, verdict>>
+                     /\ UNCHANGED <<iid, cid, fifo, visited, result, orc, verdict, l>>
 
 \* ---- breadth-first search
 BPop ==
@@ -257,6 +264,7 @@ BPop ==
   /\ LET s == Head(fifo) IN
      IF IsGoal(G, s) THEN Finish("done", ResultPath(G, came, s, -1, visited))
      ELSE \E ord \in Orders(G, s, Rnd) :
+            /\ VisitOK(s, ord) /\ StepL
             /\ fifo' = Tail(fifo)
             /\ visited' = visited \cup {s}
             /\ todo' = ord
@@ -275,7 +283,7 @@ BPush ==
            ELSE UNCHANGED <<fifo, came>>
         /\ todo' = rest
         /\ IF more THEN cur' = cur /\ phase' = "expand" ELSE cur' = None /\ phase' = "pop"
-        /\ UNCHANGED <<iid, cid, heap, best, visited, tb, result, orc, verdict>>
+        /\ UNCHANGED <<iid, cid, heap, best, visited, tb, result, orc, verdict, l>>
 
 \* ---- `while queue:` falls through: plan_on returns None
 ReturnNone ==
@@ -291,15 +299,39 @@ InitJudge ==
   /\ phase = "judge"
   /\ result = Runs[cid].res
   /\ heap = {} /\ fifo = <<>> /\ best = EmptyMap(Graphs[iid]) /\ came = EmptyMap(Graphs[iid])
-  /\ visited = {} /\ tb = 0 /\ cur = None /\ todo = <<>> /\ verdict = {}
+  /\ visited = {} /\ tb = 0 /\ cur = None /\ todo = <<>> /\ verdict = {} /\ l = 0
 
 JudgeStep ==
   /\ phase = "judge"
   /\ phase' = "judged"
   /\ verdict' = Fails(G, Runs[cid].alg, result, orc)
-  /\ UNCHANGED <<iid, cid, heap, fifo, best, came, visited, tb, cur, todo, result, orc>>
+  /\ UNCHANGED <<iid, cid, heap, fifo, best, came, visited, tb, cur, todo, result, orc, l>>
 
-Init == IF Mode = "judge" THEN InitJudge ELSE InitMC
+\* ---- trace mode: one recorded execution of the real code per run, replayed on the machine
+InitTrace ==
+  /\ cid \in 1..Len(Runs)
+  /\ iid = Runs[cid].gid
+  /\ orc = Oracle(Graphs[iid])
+  /\ LET g  == Graphs[iid]
+         cf == Runs[cid].cfg
+         t1 == NextTb(0, cf.tie)
+         n0 == <<F(orc.hz[cf.hk], 0, g.start), t1, 0, g.start>>
+     IN /\ phase = "pop"
+        /\ heap = IF cf.alg = "astar" THEN {n0} ELSE {}
+        /\ fifo = IF cf.alg = "bfs" THEN <<g.start>> ELSE <<>>
+        /\ best = IF cf.alg = "astar" THEN [EmptyMap(g) EXCEPT ![g.start] = n0] ELSE EmptyMap(g)
+        /\ tb = IF cf.alg = "astar" THEN t1 ELSE 0
+        /\ came = EmptyMap(g)
+  /\ visited = {} /\ cur = None /\ todo = <<>> /\ result = None /\ verdict = {} /\ l = 0
+
+\* the machine ended like the real run: every event consumed, same Return event
+SameResult(r, logged) ==
+  /\ r.kind = logged.kind
+  /\ r.kind = "path" => /\ r.path = logged.path /\ r.acts = logged.acts /\ r.value = logged.value
+                        /\ r.visited = Range(logged.visited)
+TraceAccepted == l = Len(Visits) /\ SameResult(result, Runs[cid].res)
+
+Init == IF Mode = "judge" THEN InitJudge ELSE IF Mode = "trace" THEN InitTrace ELSE InitMC
 Next == Configure \/ APop \/ APush \/ BPop \/ BPush \/ ReturnNone \/ JudgeStep
 Spec == Init /\ [][Next]_vars
 
@@ -308,8 +340,10 @@ Emit ==
   /\ phase = "oracle" =>
        PrintT(ToJson([kind |-> "oracle", iid |-> iid, togo |-> orc.togo, hops |-> orc.hops, from |-> orc.from,
                       hz |-> orc.hz, subcost |-> orc.subcost, subhops |-> orc.subhops, shape |-> Shape(G, orc)]))
-  /\ phase \in {"done", "error"} =>
+  /\ (phase \in {"done", "error"} /\ Mode = "mc") =>
        PrintT(ToJson([kind |-> "outcome", iid |-> iid, cid |-> cid, phase |-> phase, res |-> result]))
+  /\ (phase \in {"done", "error"} /\ Mode = "trace") =>
+       PrintT(ToJson([kind |-> "trace", tid |-> cid, accepted |-> TraceAccepted, consumed |-> l]))
   /\ phase = "judged" =>
        PrintT(ToJson([kind |-> "verdict", jid |-> cid, fails |-> verdict, shape |-> Shape(G, orc)]))
 
